@@ -123,7 +123,8 @@ struct Gen {
     static const char* kinds[] = {"AddMember", "AddMember", "AddMember", "AddMember", "AddMember", "AddMember", "RemoveMember", "RemoveMember", "RemoveMember", "RemoveMember",
                                   "EraseMember", "MemberReserve", "PushBack", "PushBack", "PushBack", "PushBack", "PopBack", "PopBack", "Erase", "Erase", "Reserve", "Clear",
                                   "Assign", "Assign", "SetNull", "SetBool", "SetInt", "SetUint", "SetDouble", "SetStr", "SetStr", "SetArray", "SetObject",
-                                  "CopyFrom", "CopyFrom", "MoveNode", "SwapNode", "CreateMap", "CreateMap", "CreateMap", "DestroyMap", "AtPointer", "AtPointer", "Lookup", "Build", "PushBackN", "AddMemberN", "CtorAssign"};
+                                  "CopyFrom", "CopyFrom", "MoveNode", "SwapNode", "CreateMap", "CreateMap", "CreateMap", "DestroyMap", "AtPointer", "AtPointer", "Lookup", "Build", "PushBackN", "AddMemberN", "CtorAssign",
+                                  "Stash", "Unstash"};
     const char* k = kinds[r.below(sizeof(kinds) / sizeof(kinds[0]))];
     Op& op = add(k);
     op.a.push_back(slot());
@@ -335,6 +336,11 @@ static void gen_c02(uint64_t seed, uint64_t run, const std::string& tier, Plan& 
       if (g.r.chance(1, 15)) op.fault = g.r.chance(1, 2) ? FT_STRBUF_FAIL : FT_NODESTACK_FAIL;
     }
     else if (m < 11) { Op& op = g.add("ParseOnDemand"); op.a.push_back(g.slot()); op.s.push_back(""); std::string t = g.text_valid(3, 4); if (g.r.chance(1, 3)) t = g.mutate(t); op.s.push_back(t); op.s.push_back(g.pspec(3)); }
+    else if (m < 13 && g.r.chance(1, 5)) {   // a JSON text carried in a string member of a pool document, then parsed into that same document
+      int64_t sl = (int64_t)(g.r.below(2) * 3); std::string pth = g.path();
+      Op& st = g.add("SetStr"); st.a = {sl, 1}; st.s = {pth, g.r.chance(1, 4) ? g.mutate(g.text_valid(2, 3)) : g.text_valid(2, 3)};
+      Op& ps = g.add("ParseSelf"); ps.a = {sl}; ps.s = {pth};
+    }
     else if (m < 13) g.mutation_op();
     else if (m < 14) { Op& op = g.add("Serialize"); op.a.push_back(g.slot()); op.s.push_back(g.path()); op.a.push_back((int64_t)g.r.below(NWB)); }
     else if (m < 15) { Op& op = g.add(g.r.chance(1, 2) ? "DocMove" : "DocSwap"); op.a.push_back(g.slot()); op.a.push_back(g.slot()); }
